@@ -23,6 +23,11 @@ def triFn : P String := do
   let a : V3 α ← pV3; let b ← pV3; let c ← pV3
   pure (rCP (closestPointTriangle a b c))
 
+/-- the pre-repair triangle routine (absolute degeneracy test) -/
+def triOldFn : P String := do
+  let a : V3 α ← pV3; let b ← pV3; let c ← pV3
+  pure (rCP (closestPointTriangle_asIs_before_fix a b c))
+
 def tetFn : P String := do
   let a : V3 α ← pV3; let b ← pV3; let c ← pV3; let d ← pV3
   pure (rCP (closestPointTetrahedron a b c d))
@@ -84,6 +89,7 @@ def dispatch (fn : String) : Option (P String) :=
   match fn with
   | "C18.line" => some (lineFn (α := α))
   | "C18.tri" => some (triFn (α := α))
+  | "C18.triold" => some (triOldFn (α := α))
   | "C18.tet" => some (tetFn (α := α))
   | "C18.gcp" => some (gcpFn (α := α))
   | "C18.baryline" => some (baryLineFn (α := α))
